@@ -71,7 +71,12 @@ def gen_case(rng: random.Random, roles: List[str], op: Optional[str] = None, mal
     c2 = contract_from_roles(roles, 1, rng, "2", False)
     if malformed and rng.random() < 0.4:
         # repeated / overlapping interface entries
-        if c1["ins"] and rng.random() < 0.5:
+        r = rng.random()
+        if len(c1["ins"]) >= 2 and r < 0.25:
+            c1["ins"] = c1["ins"] + rng.sample(c1["ins"], 2)          # two DIFFERENT variables repeated (x, y, x, y)
+        elif len(c1["outs"]) >= 2 and r < 0.45:
+            c1["outs"] = c1["outs"] + list(reversed(c1["outs"]))[:2]  # (w, v, v, w)
+        elif c1["ins"] and r < 0.7:
             c1["ins"] = c1["ins"] + [c1["ins"][0]]
         elif c1["outs"]:
             c1["outs"] = c1["outs"] + [rng.choice(c1["outs"] + c1["ins"])]
